@@ -128,7 +128,7 @@ pub struct Analyses;
 fn graph_cfg() -> AspCfg {
     AspCfg {
         // equal names at different arities; few predicates so that cycles are frequent
-        preds: vec![("p".into(), 0), ("p".into(), 1), ("q".into(), 0), ("q".into(), 1), ("r".into(), 1), ("r".into(), 2)],
+        preds: vec![("p".into(), 0), ("p".into(), 1), ("q".into(), 0), ("q".into(), 1), ("r".into(), 1), ("r".into(), 2), ("not_r".into(), 1)],
         vars: vec!["X".into(), "Y".into()],
         syms: vec!["a".into()],
         num_lo: 0,
